@@ -137,6 +137,10 @@ theorem handleData_fault_quiet (n : Node) (src dst i j len : Nat) (d : Dev) (a :
   · rw [if_pos hc, if_pos hc, sendAbort_quiet n a.pgn src i 3 d hq hd hsrc]
   · rw [if_neg hc, if_neg hc]
 
+/-- a message that came by the transport protocol is not one of the modelled system messages -/
+theorem systemMessage_tp (n : Node) (a : Slot) (h : a.tp = true) : systemMessage n a = n := by
+  simp [systemMessage, h]
+
 /-- the slot a BAM (or an RTS between other nodes) occupies: nobody is answered -/
 def bamSlot (a0 : Slot) (pgn src dst now32 size npk : Nat) : Slot :=
   { startSlot a0 pgn src dst now32 size npk with maxPackets := 0xff }
